@@ -10,7 +10,7 @@ import (
 	"verifharness/internal/opsim"
 )
 
-var profile = opsim.Profile{Name: "c06", MaxHooks: 6, Steps: 40, PFail: 30, PHold: 0, V0: true, ManyOrders: true}
+var profile = opsim.Profile{Name: "c06", MaxHooks: 6, Steps: 40, PFail: 30, PHold: 0, V0: true, ManyOrders: true, PWait: 20}
 var profileBig = opsim.Profile{Name: "c06big", MaxHooks: 40, Steps: 70, PFail: 10, PHold: 0, V0: true, ManyOrders: true}
 
 func init() { opsim.RegisterProfile(profile); opsim.RegisterProfile(profileBig) }
